@@ -553,8 +553,7 @@ theorem consecutive_ids_differ (c : Nat) : (c + 1) % 65536 ≠ c % 65536 := by o
 /-- ... and the identifier of a large packet is that counter, incremented atomically (statements regenerated from
 the source on every run) -/
 theorem id_statements_pinned :
-    Gen.Shapes.ipv4_id_alloc = ["id := uint32(0)", "id = atomic.AddUint32(&ids[hashRoute(r, protocol)%buckets], 1)",
-      "ip.Encode(&header.IPv4Fields{ IHL: header.IPv4MinimumSize, TotalLength: length, ID: uint16(id), TTL: ttl, Protocol: uint8(protocol), SrcAddr: r.LocalAddress, DstAddr: r.RemoteAddress, })"] := by
+    Gen.Shapes.ipv4_id_alloc = ["v8 := uint32(0)", "v8 = atomic.AddUint32(&ids[hashRoute(v1, v4)%buckets], 1)", "v6.Encode(&header.IPv4Fields{ IHL: header.IPv4MinimumSize, TotalLength: v7, ID: uint16(v8), TTL: v5, Protocol: uint8(v4), SrcAddr: v1.LocalAddress, DstAddr: v1.RemoteAddress, })"] := by
   decide
 
 /-- non-vacuity: a concrete datagram with an odd payload passes, and flipping one payload bit makes it fail -/
